@@ -25,7 +25,7 @@ LEVEL_TEXT = ("Step-cases with 10^3 particles each: random steep and flat bathym
 LEVEL_NOTE = "Asserted only where |vertical displacement| < h(start cell), as the property states. Trusts the spied W as the diffusion draw (its statistics are C11)."
 RULE = ("case = direct (bathymetry seed, Dz, w, scheme, flow) or e2e (ROMS world, Dz, w). Non-trivial: some particle was reflected at the surface or at the bottom and some particle "
         "changed cell during the step; distinct by parameters.")
-MANDATORY = ["reflected_at_surface", "reflected_at_bottom", "changed_cell_same_step", "start_at_surface_or_bottom", "vertical_advection", "vertical_diffusion",
+MANDATORY = ["e2e_vtransform1_cells_shallower_than_hc", "reflected_at_surface", "reflected_at_bottom", "changed_cell_same_step", "start_at_surface_or_bottom", "vertical_advection", "vertical_diffusion",
              "both_off_untouched", "steps_checked", "e2e_records_checked", "large_displacement_fraction", "e2e_subgrid_off_diagonal", "inactive_particles_reflected", "e2e_inactive_particles"]
 ASSUMPTIONS = ["|displacement| < h of the start cell (larger ones are outside the property)"]
 TIMEOUT = {"quick": 900, "thorough": 3400}
@@ -149,6 +149,9 @@ def _e2e(case, wd, V, sit, cnt):
     dt = 600
     nsteps = 10
     hmin = 15.0
+    shallow_v1 = bool(case["idx"] % 4 == 3)
+    if shallow_v1:
+        hmin = 4.0  # banks shallower than hc on a Vtransform 1 grid (the levels fold there; the water column is still [0, h])
     mode = case["idx"] % 3  # 0 diffusion, 1 advection, 2 both
     Dz = (hmin / 8.0) ** 2 / (2 * dt) * float(rng.uniform(0.05, 1.0)) if mode in (0, 2) else 0.0
     wv = float(rng.choice([-1, 1])) * 0.4 * hmin / dt if mode in (1, 2) else 0.0
@@ -157,6 +160,9 @@ def _e2e(case, wd, V, sit, cnt):
     w = dict(imax=imax, jmax=jmax, N=N, t0=str(tadd(start, -dt)), frames=[0, 20 * dt], files=[2], h=dict(kind="random", hmin=hmin, hmax=120.0, seed=case["idx"]),
              vel=dict(kind="const", u=sp * float(rng.uniform(-1, 1)), v=sp * float(rng.uniform(-1, 1))), metric=dict(kind="uniform", dx=1000.0, dy=1000.0),
              vert=dict(Vtransform=2, Vstretching=4, theta_s=3.0, theta_b=0.5, hc=10.0), scalars=dict(w=dict(kind="const", value=wv, w_levels=True)))
+    if shallow_v1:
+        w["vert"] = dict(Vtransform=1, Vstretching=1, theta_s=3.0, theta_b=0.4, hc=10.0, write_Vtransform=bool(case["idx"] % 8 == 3))
+        _bump(sit, "e2e_vtransform1_cells_shallower_than_hc")
     H = __import__("vmon.world", fromlist=["make_h"]).make_h(w["h"], jmax, imax)
     npart = 40
     X = rng.uniform(7, imax - 6, size=npart)
